@@ -122,11 +122,23 @@ impl ParserState {
             }
             if let Some(arr) = self.context.pop() {
                 if let Some(val_list) = self.context.last_mut() {
+                    // each member name is followed by one or more values of that member
                     let mut map: BTreeMap<String, IppValue> = BTreeMap::new();
-                    let mut items = arr.into_iter();
-                    while let (Some(k), Some(v)) = (items.next(), items.next()) {
-                        if let IppValue::MemberAttrName(k) = k {
-                            map.insert(k, v);
+                    let mut member: Option<(String, Vec<IppValue>)> = None;
+                    for item in arr {
+                        if let IppValue::MemberAttrName(name) = item {
+                            if let Some((name, values)) = member.replace((name, Vec::new())) {
+                                if !values.is_empty() {
+                                    map.insert(name, list_or_value(values));
+                                }
+                            }
+                        } else if let Some((_, values)) = member.as_mut() {
+                            values.push(item);
+                        }
+                    }
+                    if let Some((name, values)) = member {
+                        if !values.is_empty() {
+                            map.insert(name, list_or_value(values));
                         }
                     }
                     val_list.push(IppValue::Collection(map));
